@@ -71,9 +71,6 @@ Theorem tok_stable_attr_gen d nm attrs an v :
 Proof. apply run_dq_stable. Qed.
 
 (* ---------- inert data other than escape output ---------- *)
-Lemma inert_lit_check s : inert s = true -> inert s = true.
-Proof. auto. Qed.
-
 Lemma inert_dec_nat n : inert (dec_nat n) = true.
 Proof. unfold inert, dec_nat. now rewrite !print_dec_no. Qed.
 
